@@ -1165,12 +1165,22 @@ theorem run_cancelled_at_0 (fuel : Nat) (prog : List Term) (query : Term) (max :
     runQueryM (fuel + 1) prog query max (some 0) =
       some (.cancelled, (callGoal query (.collect query max) [] { user := initState prog (some 0) }).2) := by
   unfold runQueryM
-  have hi := (callGoal_same query (.collect query max) [] { user := initState prog (some 0) }).1.1
   rw [force]
   simp [isCancelled]
 
 example (prog : List Term) (query : Term) (max : Nat) :=
   vm_run_cancelled 1 prog query max 0 _ _ (run_cancelled_at_0 0 prog query max)
+
+/-- the naive formulation "a run under a context cancelled at `c` ends `.cancelled` or after fewer
+    than `c` polls" is FALSE: a run may end on its own in the very iteration that follows the `c`-th
+    successful poll — here: cancellation at poll 1, the only promise succeeds in iteration 0, the run
+    ends `.yes` with the counter at 1 = c.  Hence `m'.iter ≤ c` (not `<`) in `vm_run_cancelled`. -/
+theorem naive_formulation_false :
+    ∃ (r : Promise.Res Err) (m' : MS),
+      force (sem 1) (some 1) 2 [okP] { user := { cancelAt := some 1 } } = some (r, m') ∧
+      r ≠ .cancelled ∧ ¬ m'.iter < 1 :=
+  ⟨.yes, { user := { cancelAt := some 1 }, iter := 1 }, by simp [force, isCancelled, okP],
+    (fun h => by cases h), by decide⟩
 
 end Ex
 
